@@ -28,40 +28,38 @@ inductive Val where
   | str (s : Str)
   | arr (l : List Val)
 
-/-- One entry of `value_slice` as `Parser._part_dimension` stores it: `n` ↦ `(n,n)`,
-    `a:b` ↦ `(a,b)` with `None` for an omitted bound. -/
-abbrev Slice := Option Nat × Option Nat
+/-- One entry of `value_slice` as `Parser.part_slice` stores it: an integer index `n` or a
+    slice object `a:b` (`None` for an omitted bound). -/
+inductive Sl where
+  | idx (n : Nat)
+  | rng (a b : Option Nat)
 
 /-- Python `l[a:b]` for non-negative (or omitted) bounds. -/
 def pySlice {α : Type} (l : List α) (a b : Option Nat) : List α :=
   (l.take (b.getD l.length)).drop (a.getD 0)
 
-/-- `smin==smax and smin is not None` -/
-def isIndex : Slice → Option Nat
-  | (some a, some b) => if a = b then some a else none
-  | _ => none
-
-/-- `smin != smax` -/
-def isRange (s : Slice) : Bool := decide (s.1 ≠ s.2)
-
-/-- `BaseNode.slice_value` on a numpy array / nested list.  Indexing or slicing a scalar
-    raises (numpy IndexError) = `none`. -/
-def sliceValue : List Slice → Val → Option Val
+/-- `BaseNode.slice_value` on a numpy array / nested list / Python string: `value[index]`, then
+    the remaining entries on the element (after an index) or on every element (after a range).
+    Indexing or slicing a number or boolean raises = `none`. -/
+def sliceValue : List Sl → Val → Option Val
   | [], v => some v
-  | s :: rest, .arr l =>
-    match isIndex s with
-    | some n =>
-      match l[n]? with
-      | none => none
-      | some x => sliceValue rest x
-    | none =>
-      let l' := if isRange s then pySlice l s.1 s.2 else l
-      match rest with
-      | [] => some (.arr l')
-      | _ :: _ => (l'.mapM (fun x => sliceValue rest x)).map Val.arr
-  | s :: rest, v =>
-    -- a scalar: indexing and slicing raise; a last `:` entry does nothing at all
-    if (isIndex s).isNone && !isRange s && rest.isEmpty then some v else none
+  | .idx n :: rest, .arr l =>
+    match l[n]? with
+    | none => none
+    | some x => sliceValue rest x
+  | .rng a b :: rest, .arr l =>
+    match rest with
+    | [] => some (.arr (pySlice l a b))
+    | _ :: _ => ((pySlice l a b).mapM (fun x => sliceValue rest x)).map Val.arr
+  | .idx n :: rest, .str s =>
+    match s[n]? with
+    | none => none
+    | some c => sliceValue rest (.str [c])
+  | .rng a b :: rest, .str s =>
+    match rest with
+    | [] => some (.str (pySlice s a b))
+    | _ :: _ => ((pySlice s a b).mapM (fun c => sliceValue rest (.str [c]))).map Val.arr
+  | _ :: _, _ => none
 
 mutual
 /-- `numpy.ndarray.shape` of a regular nested list -/
@@ -136,7 +134,7 @@ structure Node where
   dims : List Dim            -- `dimension` (`[]` = None)
   raw : Option Val           -- `value_raw`
   ref : Option Str           -- `value_ref`
-  slice : List Slice         -- `value_slice` (`[]` = None)
+  slice : List Sl            -- `value_slice` (`[]` = None)
   unitsRaw : Option Str      -- `units_raw`
   value : Option Val         -- `value.value` (`none` = `value is None`); `value.unit` is `units_raw`
   defined : Bool
@@ -145,6 +143,7 @@ structure Node where
   format : Option Str
   tags : List Str
   options : List (Str × Option Str)
+  description : Option Str
   imported : Bool            -- `isource` set
 
 /-- `BaseNode.cast_value(value)` for a value that is not `None`/`none`. -/
@@ -277,6 +276,12 @@ def rawValue (n : Node) : Option Val :=
   | some v => some v
   | none => n.raw
 
+/-- `if not node.units_raw: node.units_raw = nodes[0].units_raw`: the host's own unit wins -/
+def pickUnit (own other : Option Str) : Option Str :=
+  match own with
+  | some u => some u
+  | none => other
+
 /-- `BaseNode.inject_value(env)` -/
 def injectValue (env : Env) (n : Node) : Except String Node :=
   match n.ref with
@@ -286,10 +291,7 @@ def injectValue (env : Env) (n : Node) : Except String Node :=
     | .error e => .error e
     | .ok [] => .error "inject: impossible"
     | .ok (src :: _) =>
-      .ok { n with raw := rawValue src,
-                   unitsRaw := match n.unitsRaw with
-                     | some u => some u
-                     | none => src.unitsRaw }
+      .ok { n with raw := rawValue src, unitsRaw := pickUnit n.unitsRaw src.unitsRaw }
 
 /-! ### hierarchy -/
 
@@ -341,7 +343,8 @@ def modifyValue (tbl : UnitTable) (t m : Node) : Except String Node :=
       | none => .error "modify: cast"
       | some v =>
         if isNumKw t.kw then
-          match convertVal tbl v m.unitsRaw t.unitsRaw with
+          if m.unitsRaw.isSome && t.unitsRaw.isNone then .error "modify: units onto a unit-less node"
+          else match convertVal tbl v m.unitsRaw t.unitsRaw with
           | none => .error "modify: units"
           | some v' => .ok { t with value := some v', slice := [] }
         else .ok { t with value := some v, slice := [] }
@@ -426,6 +429,7 @@ inductive PropLine where
   | format (f : Str)
   | tags (l : List Str)
   | option (raw : Str) (unit : Option Str)
+  | description (d : Str)
 
 inductive Item where
   | node (n : Node)                       -- group / typed / modification / import line
@@ -455,6 +459,11 @@ def applyProp (p : PropLine) (n : Node) : Except String Node :=
   | .option r u =>
     if n.kw = .int ∨ n.kw = .float ∨ n.kw = .str then .ok { n with options := n.options ++ [(r, u)] }
     else .error "options"
+  | .description d =>
+    if isTyped n.kw then .ok { n with description := match n.description with
+      | none => some d
+      | some old => some (old ++ d) }
+    else .error "description"
 
 def step (tbl : UnitTable) (env : Env) : Item → Except String Env
   | .prop p =>
@@ -488,16 +497,6 @@ def parse (tbl : UnitTable) (base : Env) (items : List Item) : Except String Env
 
 /-! ### Specification -/
 
-/-- Slice entries as written: an index `n` or a range `a:b`. -/
-inductive Sl where
-  | idx (n : Nat)
-  | rng (a b : Option Nat)
-
-/-- what `Parser._part_dimension` makes of it -/
-def Sl.toPair : Sl → Slice
-  | .idx n => (some n, some n)
-  | .rng a b => (a, b)
-
 /-- numpy/Python indexing `v[s1, s2, …]` on nested lists -/
 def specSlice : List Sl → Val → Option Val
   | [], v => some v
@@ -525,6 +524,7 @@ structure SNode where
   format : Option Str
   tags : List Str
   options : List (Str × Option Str)
+  description : Option Str
 
 inductive SQuery where
   | all
@@ -556,6 +556,7 @@ inductive SStmt where
   | format (path : List Str) (f : Str)
   | tags (path : List Str) (l : List Str)
   | option (path : List Str) (raw : Str) (unit : Option Str)
+  | description (path : List Str) (d : Str)
 
 structure SEnv where
   nodes : List SNode
@@ -607,30 +608,37 @@ def unitOk (tbl : UnitTable) (kw : Kw) (u : Option Str) : Bool :=
   | none => true
   | some x => isNumKw kw && (lookupUnit tbl x).isSome
 
+/-- the update a modification `path = v unit'` applies to the node at `path`: refused on a
+    constant; the value must conform to the node's type and dimension; numbers are converted from
+    the stated (or adopted) unit into the node's definition unit -/
+def specModF (tbl : UnitTable) (v : Val) (unit' : Option Str) (n : SNode) : Option SNode :=
+  if n.constant then none
+  else match conforms n.kw n.dims v with
+    | none => none
+    | some v' =>
+      if isNumKw n.kw then
+        (if unit'.isSome && n.unit.isNone then none
+         else (convertVal tbl v' unit' n.unit).map (fun w => { n with value := w }))
+      else some { n with value := v' }
+
 def sStep (tbl : UnitTable) (env : SEnv) : SStmt → Except SErr SEnv
   | .defn path kw dims sv unit =>
     if env.nodes.any (fun n => n.path = path) then .error .outside   -- re-definition
     else match sEval env sv with
       | .error e => .error e
       | .ok (v, u) =>
-        let unit' := match unit with | some x => some x | none => u
+        let unit' := pickUnit unit u
         if !unitOk tbl kw unit' then .error .outside
         else match conforms kw dims v with
           | none => .error .outside
           | some v' => .ok { env with nodes := env.nodes ++
-              [⟨path, kw, dims, unit', v', false, none, none, [], []⟩] }
+              [⟨path, kw, dims, unit', v', false, none, none, [], [], none⟩] }
   | .modl path sv unit =>
     match sEval env sv with
     | .error e => .error e
     | .ok (v, u) =>
-      let unit' := match unit with | some x => some x | none => u
-      match sUpdate path (fun n =>
-        if n.constant then none
-        else match conforms n.kw n.dims v with
-          | none => none
-          | some v' =>
-            if isNumKw n.kw then (convertVal tbl v' unit' n.unit).map (fun w => { n with value := w })
-            else some { n with value := v' }) env.nodes with
+      let unit' := pickUnit unit u
+      match sUpdate path (specModF tbl v unit') env.nodes with
       | some ns => .ok { env with nodes := ns }
       | none => .error .outside
   | .imp dest source q =>
@@ -646,6 +654,9 @@ def sStep (tbl : UnitTable) (env : SEnv) : SStmt → Except SErr SEnv
   | .format path f => sAttr env path (fun n => { n with format := some f })
   | .tags path l => sAttr env path (fun n => { n with tags := n.tags ++ l })
   | .option path r u => sAttr env path (fun n => { n with options := n.options ++ [(r, u)] })
+  | .description path d => sAttr env path (fun n => { n with description := match n.description with
+      | none => some d
+      | some old => some (old ++ d) })
 
 /-- `valueAt`: the environment the last-assignment semantics gives after the statements -/
 def sRun (tbl : UnitTable) (env : SEnv) : List SStmt → Except SErr SEnv
@@ -654,33 +665,54 @@ def sRun (tbl : UnitTable) (env : SEnv) : List SStmt → Except SErr SEnv
     | .error e => .error e
     | .ok env' => sRun tbl env' rest
 
-/-! ### Heap view of `Environment.copy` (for the frame property) -/
+/-! ### Heap view of `Environment.copy` / `Node.copy` (for the frame properties) -/
 
-/-- node objects live in a heap; an environment's node list holds addresses -/
-abbrev Heap := List Node
+/-- objects live in a heap; whoever holds an object holds its address -/
+abbrev Heap (α : Type) := List α
 
-/-- `copy.deepcopy`: every node object reachable from the list is duplicated at a fresh address -/
-def deepCopy (h : Heap) (addrs : List Nat) : Heap × List Nat :=
+/-- `copy.deepcopy`: every object reachable from the address list is duplicated at a fresh address -/
+def deepCopy {α : Type} (h : Heap α) (addrs : List Nat) : Heap α × List Nat :=
   let objs := addrs.filterMap (fun a => h[a]?)
   (h ++ objs, List.range' h.length objs.length)
 
-/-- what the main loop does to the target's node list: write through one of its addresses
-    (`modify_value`, property lines) or append a new object -/
-inductive HOp where
-  | write (i : Nat) (f : Node → Node)     -- i-th entry of the target's list
-  | append (n : Node)
+/-- what later code does to the copy: mutate in place through one of its addresses
+    (`modify_value`, property lines, `options.append`, `tags +=`) or create a new object -/
+inductive HOp (α : Type) where
+  | write (i : Nat) (f : α → α)     -- i-th entry of the copy's address list
+  | append (x : α)
 
 /-- assignment to the object at address `a` -/
-def writeAt (h : Heap) (a : Nat) (f : Node → Node) : Heap :=
+def writeAt {α : Type} (h : Heap α) (a : Nat) (f : α → α) : Heap α :=
   match h, a with
   | [], _ => []
   | x :: t, 0 => f x :: t
   | x :: t, a + 1 => x :: writeAt t a f
 
-def hStep (s : Heap × List Nat) : HOp → Heap × List Nat
+def hStep {α : Type} (s : Heap α × List Nat) : HOp α → Heap α × List Nat
   | .write i f => match s.2[i]? with
     | some a => (writeAt s.1 a f, s.2)
     | none => s
   | .append n => (s.1 ++ [n], s.2 ++ [s.1.length])
+
+/-- the mutable attribute objects a node object refers to -/
+inductive AttrObj where
+  | value (v : Option Val) (unit : Option Str)      -- the `Type` object
+  | options (l : List (Str × Option Str))
+  | tags (l : List Str)
+  | dimension (l : List Dim)
+
+/-- a node object: immutable fields and the addresses of its mutable attribute objects -/
+structure ObjNode where
+  name : Str
+  attrs : List Nat
+
+/-- `node.copy()` in `NodeList.query` (`copy.deepcopy`) followed by the rebinding of `name` -/
+def queryCopy (h : Heap AttrObj) (n : ObjNode) (newName : Str) : Heap AttrObj × ObjNode :=
+  let r := deepCopy h n.attrs
+  (r.1, { name := newName, attrs := r.2 })
+
+/-- `copy.copy(node)`: the new node object refers to the same attribute objects -/
+def queryCopyShallow (h : Heap AttrObj) (n : ObjNode) (newName : Str) : Heap AttrObj × ObjNode :=
+  (h, { name := newName, attrs := n.attrs })
 
 end SciVerif.C17
